@@ -71,3 +71,62 @@ DATE_PATTERNS = {
     "ties": lambda T: [float(i // 2) for i in range(T)],
     "calendar": lambda T: [2000.0 + float((i * 5) % (T + 2)) for i in range(T)],
 }
+
+
+def reparam_histories(kind, depth=4, reads=("heights", "bl", "call"), check=("heights", "bl", "call")):
+    """Drives a real ReparameterizedTimeTreeModel through EVERY history of length <= depth over the public operations
+    {set: assign a new parameter tensor, inplace: in-place update + fire_parameter_changed, heights, bl, call} and compares every
+    read with a FRESH model built at the current parameter value.  Returns (first failing (history, read, got, want) or None,
+    number of histories, abstract dirty-flag states seen per depth) -- the abstract state is the tuple of the three *_need(s)_update
+    flags; saturation of that set before `depth` makes the enumeration exhaustive modulo the flag abstraction."""
+    import itertools
+    import torch
+    tree = ((0, 1), (2, 3))
+    T = 4
+    names = ["t%d" % i for i in range(T)]
+    dates = [0.0, 1.0, 0.0, 2.0]
+    if kind == "ratios":
+        values = [torch.tensor(v, dtype=torch.float64) for v in ([0.5, 0.25, 3.0], [0.3, 0.6, 4.0], [0.8, 0.1, 2.5], [0.45, 0.55, 5.0], [0.2, 0.9, 3.5])]
+    else:
+        values = [torch.tensor(v, dtype=torch.float64) for v in ([0.5, 0.7, 0.3], [0.2, 0.4, 0.9], [1.1, 0.1, 0.6], [0.35, 0.8, 0.25], [0.6, 0.6, 0.6])]
+    ops = ("set", "inplace") + tuple(reads)
+
+    def read(tm, op):
+        if op == "heights":
+            return tm.node_heights
+        if op == "bl":
+            return tm.branch_lengths()
+        return tm()
+    fresh_cache = {}
+
+    def fresh(i, op):
+        if (i, op) not in fresh_cache:
+            f, _ = build_reparam(tree, names, dates, values[i].clone(), kind)
+            fresh_cache[(i, op)] = read(f, op).detach().clone()
+        return fresh_cache[(i, op)]
+    n = 0
+    seen = [set() for _ in range(depth + 1)]
+    for d in range(1, depth + 1):
+        for hist in itertools.product(ops, repeat=d):
+            if hist[-1] not in check:
+                continue
+            n += 1
+            tm, _ = build_reparam(tree, names, dates, values[0].clone(), kind)
+            p = tm._internal_heights
+            cur = 0
+            for k, op in enumerate(hist):
+                if op == "set":
+                    cur += 1
+                    p.tensor = values[cur].clone()
+                elif op == "inplace":
+                    cur += 1
+                    with torch.no_grad():
+                        p.tensor.copy_(values[cur])
+                    p.fire_parameter_changed()
+                else:
+                    got = read(tm, op)
+                    want = fresh(cur, op)
+                    if op in check and (got.shape != want.shape or not torch.allclose(got.detach(), want, rtol=1e-10, atol=1e-12)):
+                        return (hist[:k + 1], op, got.detach().tolist(), want.tolist()), n, seen
+                seen[k + 1].add((bool(getattr(tm, "heights_need_update", None)), bool(getattr(tm, "branch_lengths_need_update", None)), bool(getattr(tm, "lp_needs_update", None))))
+    return None, n, seen
